@@ -197,8 +197,66 @@ def run_methods_case(case):
   return {'out': [], 'facts': facts}
 
 
+# the operative text after calls that did not go well, or after the configuration moved on: it is still produced, it
+# still parses, and what was recorded stays recorded - a finite table on the real code
+ROBUST_CASES = [{'dom': 'gin', '_kind': 'robust', 'what': w, 'scope': sc, 'nested': n, 'ops': []}
+                for w in ('unbound_macro', 'reference_reinit') for sc in ('', 'a/b') for n in (False, True)]
+
+
+def run_robust_case(case):
+  import contextlib
+  import core
+  gin = core.fresh_gin()
+  facts = {}
+  sc = case['scope']
+  try:
+    if case['what'] == 'unbound_macro':
+      g = {'gin': gin, '__name__': 'rb'}
+      exec('def f(x=1, y=2):\n  return (x, y)\ndef ok(z=3):\n  return z\n', g)  # pylint: disable=exec-used
+      f, ok = gin.configurable(g['f']), gin.configurable(g['ok'])
+      gin.parse_config('rb.f.x = ' + ('[1, %undefined]' if case['nested'] else '%undefined') + '\nrb.ok.z = 4\n')
+      with contextlib.ExitStack() as st:
+        if sc:
+          st.enter_context(gin.config_scope(sc))
+        ok()
+        try:
+          f()
+          facts['call'] = 'returned'
+        except Exception as e:  # pylint: disable=broad-except
+          facts['call'] = type(e).__name__
+      text = gin.operative_config_str()
+      facts['text_has_ok'] = 'ok.z = 4' in text
+      gin.clear_config()
+      gin.parse_config(text)
+      facts['parses'] = True
+    else:
+      import sys
+      import os
+      sys.path.insert(0, os.path.dirname(os.path.dirname(os.path.abspath(__file__))))
+      import c19pkg.m1 as m1  # noqa  pylint: disable=import-error
+      dr = 'from __gin__ import dynamic_registration\nimport c19pkg.m1\n'
+      ref = '[@c19pkg.m1.Cls]' if case['nested'] else '@c19pkg.m1.Cls'
+      pre = sc + '/' if sc else ''
+      gin.parse_config(dr + f'{pre}c19pkg.m1.f.a = {ref}\n')
+      with contextlib.ExitStack() as st:
+        if sc:
+          st.enter_context(gin.config_scope(sc))
+        gin.get_configurable(m1.f)()
+      before = [l for l in gin.operative_config_str().splitlines() if 'f.a = ' in l]
+      # the binding is replaced (the reference now lives in the operative record only) and a method of the referenced
+      # class is configured, which registers the class again
+      gin.parse_config(dr + f'{pre}c19pkg.m1.f.a = 3\nc19pkg.m1.Cls.meth.k = 7\n')
+      after = [l for l in gin.operative_config_str().splitlines() if 'f.a = ' in l]
+      facts['line_before'], facts['line_after'] = before, after
+      facts['kept'] = bool(before) and before == after
+  except Exception as e:  # pylint: disable=broad-except
+    facts['error'] = f'{type(e).__name__}: {e}'[:300]
+  return {'out': [], 'facts': facts}
+
+
 def gen_cases(rng, tier, boost=1):
   yield from METHOD_CASES
+  yield from ROBUST_CASES
   yield from SINGLETON_CASES
   n = (900 if tier == 'quick' else 25000) * boost
   for k in range(n):
@@ -206,7 +264,7 @@ def gen_cases(rng, tier, boost=1):
 
 
 def compare(case, impl, model):
-  if case.get('_kind') in ('singleton', 'methods'):
+  if case.get('_kind') in ('singleton', 'methods', 'robust'):
     return None
   if case.get('_kind') != 'macro':
     return gindom.compare(case, impl, model)
@@ -233,6 +291,8 @@ def run_impl(case):
     return run_singleton_case(case)
   if case.get('_kind') == 'methods':
     return run_methods_case(case)
+  if case.get('_kind') == 'robust':
+    return run_robust_case(case)
   from encode import Opaque
   Opaque._all.clear()  # pylint: disable=protected-access
   s = gindom.Session()
@@ -287,6 +347,16 @@ def oracle(case, impl):
   """C07 stated directly on the parsed operative_config_str()."""
   if case.get('_kind') == 'macro':
     return macro_oracle(case, impl)
+  if case.get('_kind') == 'robust':
+    f = impl['facts']
+    if 'error' in f:
+      return f'operative_config_str() after {case["what"]} (scope {case["scope"]!r}, nested {case["nested"]}): {f["error"]}'
+    if case['what'] == 'unbound_macro' and not (f.get('text_has_ok') and f.get('parses')):
+      return f'operative text after a call that evaluated an unbound macro: {f}'
+    if case['what'] == 'reference_reinit' and not f.get('kept'):
+      return (f'a parameter recorded for a call disappeared although the configurable was not called again: '
+              f'{f.get("line_before")} -> {f.get("line_after")}')
+    return None
   if case.get('_kind') == 'methods':
     f = impl['facts']
     if 'error' in f:
@@ -393,7 +463,7 @@ def macro_oracle(case, impl):
 
 
 def nontrivial(case, impl):
-  if case.get('_kind') in ('singleton', 'methods'):
+  if case.get('_kind') in ('singleton', 'methods', 'robust'):
     return True
   if case.get('_kind') == 'macro':
     return any(o['op'] == 'ecall' and 'ok' in r for o, r in zip(case['ops'], impl['out']))
@@ -409,7 +479,7 @@ def nontrivial(case, impl):
 
 
 def shrink(case):
-  if case.get('_kind') in ('singleton', 'methods'):
+  if case.get('_kind') in ('singleton', 'methods', 'robust'):
     return
   ops = case['ops']
   for k in range(len(ops) - 1, -1, -1):
